@@ -20,7 +20,7 @@ def main():
         env["PYTHONDONTWRITEBYTECODE"] = "1"
         cmd = ["/venv/bin/python", "-m", "pytest", "-ra", "-q", "-p", "no:cacheprovider", "--timeout=900",
                "--continue-on-collection-errors", f"--junitxml={xml}"]
-        p = subprocess.run(cmd, cwd="/repo", env=env, stdout=subprocess.PIPE, stderr=subprocess.STDOUT, text=True)
+        p = subprocess.run(cmd, cwd=os.environ.get("SVMC_REPO", "/repo"), env=env, stdout=subprocess.PIPE, stderr=subprocess.STDOUT, text=True)
         passed = set()
         for tc in ET.parse(xml).getroot().iter("testcase"):
             if not any(ch.tag in ("failure", "error", "skipped") for ch in tc):
